@@ -199,6 +199,7 @@ def _rst(sock):
 
 class _Handler(BaseHTTPRequestHandler):
     protocol_version = "HTTP/1.1"
+    disable_nagle_algorithm = True
 
     def log_message(self, *a):  # silence
         pass
